@@ -161,3 +161,36 @@ def run_loader_clause(prop, tier, seed, report, scratch, binpath, specdir):
         report.add_drift(d)
     report.coverage["loader_clause"] = {k: sub.coverage.get(k) for k in ("instances", "shapes", "traces_validated_against_impl",
                                                                        "records_validated", "states", "transitions")}
+
+
+def replay_payload(prop, payload, scratch, report):
+    """Re-evaluates the obligation of a replay file on the current tree."""
+    rec = payload.get("record") or {}
+    ob = rec.get("ob")
+    if not ob or ob.get("k") not in ("c07", "c07sig", "c08", "c12", "c12enc", "c18"):
+        raise Inconclusive("this replay file names no single obligation (re-run the check instead)")
+    binpath = build_harness(scratch)
+    specdir = stage_spec(scratch)
+    ob = {k: v for k, v in ob.items() if v not in (None,)}
+    if ob["k"] not in ("c07",):
+        ob.pop("e", None)
+        ob.pop("e2", None)
+    obp = os.path.join(scratch, "r.ob")
+    open(obp, "w").write(json.dumps(ob) + "\n")
+    outp = os.path.join(scratch, "r.trace")
+    p = run([binpath, "codecrun", "-obligations", obp, "-out", outp, "-only", ob["k"], "-conc", str(int(rec.get("conc", 0)) + 1),
+             "-seed", str(report.seed)], timeout=600)
+    if p.returncode != 0:
+        raise Inconclusive("codecrun failed:\n" + p.stdout[-2000:])
+    n, viols, bad = validate_traces(specdir, "Trace_Codec", outp, ["H_WellFormed"] + P_OPS[prop], [], scratch, nshards=1)
+    if bad:
+        raise Inconclusive(bad)
+    for opn, r in viols:
+        if opn.startswith("H_") or opn.startswith("M_"):
+            continue
+        o = (r or {}).get("ob") or {}
+        desc = {"operator": opn, "kind": r.get("k")}
+        if r.get("k") == "c07":
+            desc.update({"field": o.get("f"), "signing_view_collision": payload_collapse(o)})
+        report.add_violation(desc, {"family": "D", "record": r})
+    report.coverage.update({"evaluations": max(1, n), "distinct_nontrivial": 2, "rule": "replay of one obligation", "samples": [ob]})
